@@ -45,9 +45,13 @@ def kernel_cases(rep, rng, tier):
     texts, refs = [], []
     for ci in range(6 if tier == "quick" else 30):
         n, m = rng.randint(3, 60), rng.randint(2, 40)
-        sites = np.array([[rng.uniform(-5, 5), rng.uniform(-5, 5)] for _ in range(n)])
-        pts = np.array([[rng.uniform(-5, 5), rng.uniform(-5, 5)] for _ in range(m)])
-        areas = np.array([rng.uniform(0.01, 2.0) for _ in range(n)])
+        # "arbitrary point sets": any length scale (coordinates of order 1e-7 ... 1e4), and points close to sites
+        L = [1.0, 1e-7, 1e4, 1.0, 3e-4, 1.0][ci % 6]
+        sites = np.array([[rng.uniform(-5, 5), rng.uniform(-5, 5)] for _ in range(n)]) * L
+        pts = np.array([[rng.uniform(-5, 5), rng.uniform(-5, 5)] for _ in range(m)]) * L
+        if ci % 2:
+            pts[: min(3, m)] = sites[: min(3, m)] + np.array([[1e-4, -2e-4]]) * L        # nearly coincident pairs
+        areas = np.array([rng.uniform(0.01, 2.0) for _ in range(n)]) * L * L
         J = np.array([[rng.gauss(0, 1), rng.gauss(0, 1)] for _ in range(n)]) * 10 ** rng.uniform(-3, 3)
         out = np.empty((m, 2))
         get_A_induced_numba(J, areas, sites, pts, out)
@@ -55,6 +59,7 @@ def kernel_cases(rep, rng, tier):
         sc = float(np.max(np.abs(ds)) + 1e-300)
         if np.max(np.abs(out - ds)) > 1e-9 * sc:
             rep.violation("accelerated kernel differs from the direct double sum", {"case": ci, "n": n, "m": m,
+                                                                                     "length_scale": L,
                                                                                      "max_abs_diff": float(np.max(np.abs(out - ds)))})
         t = HEADER + f"Definition srcs := {srcs_literal(sites, areas, J)}.\n"
         t += f"Eval vm_compute in kernel OpsF srcs {vlist(pts)}.\n"
